@@ -404,6 +404,11 @@ func readHeader(in *io.Reader) (manifest []byte, mac []byte, err error) {
 		return nil, nil, errors.New("message authentication code not found")
 	}
 
+	// The source may have returned the last bytes of the header together with an error: that error must not be lost
+	if err != nil && err != io.EOF {
+		return nil, nil, err
+	}
+
 	// Whatever data we read extra, add it back to the beginning of the stream
 	if n > lastNewline {
 		// We need to copy the data because the buffer will be given back
